@@ -26,14 +26,32 @@ def tspec(draw, dom=None, cod=None):
     cod = draw(dims) if cod is None else cod
     n = size(dom) * size(cod)
     vals = draw(st.lists(st.integers(-3, 3), min_size=2 * n, max_size=2 * n))
-    return {"dom": dom, "cod": cod, "vals": vals}
+    return {"dom": dom, "cod": cod, "vals": vals,
+            "layout": draw(st.sampled_from(
+                ["shaped", "shaped", "list", "fortran", "matrix",
+                 "matrix-fortran", "view"]))}
 
 
 def build(t):
+    """ The same entries handed over in the ways a user may hold them: an
+    array of shape dom + cod, a flat list, a column-major copy, a dom x cod
+    matrix (row- or column-major), a transposed view of the transpose. The
+    constructor reads all of them in index (row-major) order. """
     from discopy.tensor import Dim, Tensor
     shape = [d for d in t["dom"] + t["cod"]]
-    return Tensor(Dim(*t["dom"]), Dim(*t["cod"]),
-                  specs.cplx(t["vals"], shape))
+    arr = specs.cplx(t["vals"], shape)
+    layout = t.get("layout", "shaped")
+    if layout == "list":
+        arr = arr.flatten().tolist()
+    elif layout == "fortran":
+        arr = np.asfortranarray(arr)
+    elif layout in ("matrix", "matrix-fortran", "view"):
+        arr = arr.reshape(size(t["dom"]), size(t["cod"]))
+        if layout == "matrix-fortran":
+            arr = np.asfortranarray(arr)
+        elif layout == "view":
+            arr = np.ascontiguousarray(arr.T).T
+    return Tensor(Dim(*t["dom"]), Dim(*t["cod"]), arr)
 
 
 def mat_of(t):
